@@ -168,4 +168,218 @@ theorem wires1_author (cfg : Cfg) (j : Nat) (hj : j ∈ members cfg.n) :
       simpa [initSt] using this)
     (members cfg.n) (members_nodup cfg.n) j hj
 
+/-! ## the premises of the phase 2 step hold for honest members of `run` -/
+
+/-- phase 1 payloads of a message list -/
+def ephOf (L : List Msg) : List (Nat × List (Nat × Nat)) :=
+  L.filterMap (fun m => match m with | .eph h k => some (h.sender, k) | _ => none)
+
+theorem ephMsgs_eq (st : St) : ephMsgs st = ephOf st.prev := rfl
+
+/-- on admitted messages (author = sender) the first message of sender `k` is the first message
+    authored by `k` -/
+theorem ephOf_find_author (L : List Msg) (hL : ∀ m ∈ L, m.hdr.author = m.hdr.sender) (k : Nat) :
+    (ephOf L).find? (fun p => p.1 = k) =
+      (ephOf (L.filter (fun m => m.hdr.author = k))).find? (fun p => p.1 = k) := by
+  induction L with
+  | nil => rfl
+  | cons m rest ih =>
+    have hrest : ∀ m ∈ rest, m.hdr.author = m.hdr.sender := fun m hm => hL m (List.mem_cons_of_mem _ hm)
+    have hm := hL m (by simp)
+    by_cases hk : m.hdr.author = k
+    · rw [List.filter_cons_of_pos (by simpa using hk)]
+      cases m with
+      | eph h keys =>
+        have hs : h.sender = k := by simp only [Msg.hdr] at hm hk; rw [← hm]; exact hk
+        simp [ephOf, List.filterMap_cons, List.find?_cons, hs]
+      | _ => simpa [ephOf, List.filterMap_cons] using ih hrest
+    · rw [List.filter_cons_of_neg (by simpa using hk)]
+      cases m with
+      | eph h keys =>
+        have hs : ¬ h.sender = k := by simp only [Msg.hdr] at hm hk; rw [← hm]; exact hk
+        simp only [ephOf, List.filterMap_cons, List.find?_cons, hs, decide_false]
+        exact ih hrest
+      | _ => simpa [ephOf, List.filterMap_cons] using ih hrest
+
+theorem admits1 (st : St) (m : Msg) : admits 1 st m = accept st m := by
+  simp [admits]
+
+theorem isOperating_init (cfg : Cfg) (i k : Nat) :
+    isOperating (initSt cfg i) k = true ↔ (1 ≤ k ∧ k ≤ cfg.n) := by
+  constructor
+  · intro h
+    simp only [isOperating, Bool.and_eq_true] at h
+    exact ⟨of_decide_eq_true h.1.1.1, of_decide_eq_true h.1.1.2⟩
+  · intro h
+    simp only [isOperating, Bool.and_eq_true]
+    exact ⟨⟨⟨decide_eq_true h.1, decide_eq_true h.2⟩, rfl⟩, rfl⟩
+
+theorem isOperating_init_eq (cfg : Cfg) (i j k : Nat) :
+    isOperating (initSt cfg i) k = isOperating (initSt cfg j) k := rfl
+
+/-- what member `i` holds of author `k` after phase 1 -/
+theorem S1_prev_author (cfg : Cfg) (i k : Nat) (hk : k ∈ members cfg.n) :
+    (S1 cfg i).prev.filter (fun m => m.hdr.author = k) =
+      ((wires1 cfg).filter (fun m => m.hdr.author = k)).filter (accept (initSt cfg i)) := by
+  rw [(S1_fields cfg i).2.2.2.2.2, List.filter_filter]
+  rw [← deliveryOrder_author cfg i 1 (wires1 cfg) k hk, List.filter_filter]
+  apply List.filter_congr
+  intro m _
+  rw [admits1, Bool.and_comm]
+
+theorem S1_prev_accepted (cfg : Cfg) (i : Nat) : ∀ m ∈ (S1 cfg i).prev, accept (initSt cfg i) m = true := by
+  intro m hm
+  rw [(S1_fields cfg i).2.2.2.2.2] at hm
+  have := (List.mem_filter.1 hm).2
+  rwa [admits1] at this
+
+private theorem lookup_map_self (L : List Nat) (g : Nat → Nat) (x : Nat) (hx : x ∈ L) :
+    (lookup x (L.map (fun y => (y, g y)))).isSome = true := by
+  induction L with
+  | nil => simp at hx
+  | cons y ys ih =>
+    simp only [List.map_cons, lookup]
+    by_cases h : y = x
+    · simp [h]
+    · simp only [h, if_false]
+      simp only [List.mem_cons] at hx
+      rcases hx with rfl | hx
+      · exact absurd rfl h
+      · exact ih hx
+
+/-- **Agreement after phase 2, inside `run`, unconditionally.**  For every configuration and any two
+    honest members `i ≠ j`: the states of `run` after phase 2 are `phase2 (S1 cfg ·)`, they have the
+    same IA set and the same DQ set, and neither marked the other. -/
+theorem views_agree_after_phase_2 (cfg : Cfg) (i j : Nat)
+    (hi : i ∈ members cfg.n) (hj : j ∈ members cfg.n) (hij : i ≠ j)
+    (hci : i ∉ corrupt cfg) (hcj : j ∉ corrupt cfg) :
+    after cfg 2 = (members cfg.n).map (fun i => phase2 (S1 cfg i)) ∧
+    (∀ k, k ∈ (phase2 (S1 cfg i)).ia ↔ k ∈ (phase2 (S1 cfg j)).ia) ∧
+    (∀ k, k ∈ (phase2 (S1 cfg i)).dq ↔ k ∈ (phase2 (S1 cfg j)).dq) ∧
+    j ∉ (phase2 (S1 cfg i)).ia ∧ j ∉ (phase2 (S1 cfg i)).dq ∧
+    i ∉ (phase2 (S1 cfg j)).ia ∧ i ∉ (phase2 (S1 cfg j)).dq := by
+  refine ⟨after2_eq cfg, ?_⟩
+  obtain ⟨ai, an, aia, adq, _, _⟩ := S1_fields cfg i
+  obtain ⟨bi, bn, bia, bdq, _, _⟩ := S1_fields cfg j
+  -- admitted messages: sender in range, not self, author = sender
+  have hacc : ∀ (x : Nat) (m : Msg), m ∈ (S1 cfg x).prev →
+      m.hdr.sender ≠ x ∧ m.hdr.author = m.hdr.sender ∧ 1 ≤ m.hdr.sender ∧ m.hdr.sender ≤ cfg.n := by
+    intro x m hm
+    have h := accept_only_operating_valid_nonself _ m (S1_prev_accepted cfg x m hm)
+    have hop := h.2.2.1
+    rw [isOperating_init] at hop
+    exact ⟨by simpa [initSt] using h.1, h.2.1, hop.1, hop.2⟩
+  have hrange : ∀ (x : Nat), ∀ k ∈ (ephMsgs (S1 cfg x)).map (·.1), 1 ≤ k ∧ k ≤ cfg.n ∧ k ≠ x := by
+    intro x k hk
+    obtain ⟨p, hp, rfl⟩ := List.mem_map.1 hk
+    rw [ephMsgs_eq, ephOf, List.mem_filterMap] at hp
+    obtain ⟨m, hm, hmp⟩ := hp
+    cases m with
+    | eph h keys =>
+      simp only [Option.some.injEq] at hmp
+      subst hmp
+      have := hacc x _ hm
+      simp only [Msg.hdr] at this
+      exact ⟨this.2.2.1, this.2.2.2, this.1⟩
+    | _ => simp at hmp
+  -- the message of an honest member `y` as held by another member `x`
+  have hhonest : ∀ (x y : Nat), x ≠ y → y ∈ members cfg.n → y ∉ corrupt cfg →
+      ∃ p, (ephMsgs (S1 cfg x)).find? (fun p => p.1 = y) = some p ∧ badEph cfg.n p = false := by
+    intro x y hxy hy hcy
+    have hw : (wires1 cfg).filter (fun m => m.hdr.author = y) = [eph1 (initSt cfg y)] := by
+      rw [wires1_author cfg y hy, applyScript_honest cfg _ 1 _ (by simpa [initSt] using hcy)]
+    have hyr := (mem_members cfg.n y).1 hy
+    have hacc1 : accept (initSt cfg x) (eph1 (initSt cfg y)) = true := by
+      have hop : isOperating (initSt cfg x) y = true := (isOperating_init cfg x y).2 hyr
+      have e1 : (initSt cfg y).id = y := rfl
+      have e2 : (initSt cfg x).id = x := rfl
+      unfold accept eph1
+      simp only [Msg.hdr, e1, e2, hop]
+      simp [Ne.symm hxy]
+    have hp : (S1 cfg x).prev.filter (fun m => m.hdr.author = y) = [eph1 (initSt cfg y)] := by
+      rw [S1_prev_author cfg x y hy, hw]
+      simp [hacc1]
+    refine ⟨(y, ((members cfg.n).filter (· ≠ y)).map (fun z => (z, ownKey y z))), ?_, ?_⟩
+    · rw [ephMsgs_eq, ephOf_find_author _ (fun m hm => (hacc x m hm).2.1) y, hp]
+      simp [ephOf, eph1, initSt]
+      all_goals (congr 1; apply List.filter_congr; intro z _; by_cases hzz : z = y <;> simp [hzz])
+    · simp only [badEph, Bool.not_eq_false', List.all_eq_true, Bool.or_eq_true, decide_eq_true_eq]
+      intro z hz
+      by_cases hzy : z = y
+      · exact Or.inl hzy
+      · refine Or.inr ?_
+        unfold hasKey
+        exact lookup_map_self _ _ z (List.mem_filter.2 ⟨hz, by simpa using hzy⟩)
+  -- consistent broadcast for third members
+  have hsync : ∀ k, k ≠ (S1 cfg i).id → k ≠ (S1 cfg j).id →
+      (ephMsgs (S1 cfg i)).find? (fun p => p.1 = k) = (ephMsgs (S1 cfg j)).find? (fun p => p.1 = k) := by
+    intro k hki hkj
+    rw [ai] at hki; rw [bi] at hkj
+    by_cases hk : k ∈ members cfg.n
+    · rw [ephMsgs_eq, ephMsgs_eq, ephOf_find_author _ (fun m hm => (hacc i m hm).2.1) k,
+        ephOf_find_author _ (fun m hm => (hacc j m hm).2.1) k,
+        S1_prev_author cfg i k hk, S1_prev_author cfg j k hk]
+      congr 2
+      apply List.filter_congr
+      intro m hm
+      have hau : m.hdr.author = k := by simpa using (List.mem_filter.1 hm).2
+      have e1 : (initSt cfg i).id = i := rfl
+      have e2 : (initSt cfg j).id = j := rfl
+      simp only [accept, isOperating_init_eq cfg i j m.hdr.sender, e1, e2]
+      by_cases hs : m.hdr.author = m.hdr.sender
+      · have hsk : m.hdr.sender = k := hs ▸ hau
+        simp [hsk, hki, hkj]
+      · simp [hs]
+    · have none_of : ∀ x, (ephMsgs (S1 cfg x)).find? (fun p => p.1 = k) = none := by
+        intro x
+        rw [List.find?_eq_none]
+        intro p hp hc
+        simp only [decide_eq_true_eq] at hc
+        have := hrange x p.1 (List.mem_map.2 ⟨p, hp, rfl⟩)
+        exact hk ((mem_members cfg.n k).2 (hc ▸ ⟨this.1, this.2.1⟩))
+      rw [none_of i, none_of j]
+  have hir := (mem_members cfg.n i).1 hi
+  have hjr := (mem_members cfg.n j).1 hj
+  have step := views_agree_after_phase_2_step (S1 cfg i) (S1 cfg j) cfg.n an bn ⟨aia, adq⟩ ⟨bia, bdq⟩
+    (by rw [ai]; exact hrange i) (by rw [bi]; exact hrange j) hsync
+    (by rw [bi]; exact hhonest i j hij hj hcj) (by rw [ai]; exact hhonest j i (Ne.symm hij) hi hci)
+    (by rw [ai]; exact hir) (by rw [bi]; exact hjr)
+  rw [ai, bi] at step
+  exact step
+
+theorem phase2_id (st : St) : (phase2 st).id = st.id := by
+  have hc := phase2_fold_core (dedup (·.1) (ephMsgs st)) (markInactive st ((ephMsgs st).map (·.1)))
+    (markInactive st ((ephMsgs st).map (·.1))) rfl
+  have h1 : (phase2 st).id = ((((dedup (·.1) (ephMsgs st)).filter
+      (badEph (markInactive st ((ephMsgs st).map (·.1))).n)).map (·.1)).foldl markDQ
+        (markInactive st ((ephMsgs st).map (·.1)))).id := congrArg (·.1) hc
+  have h2 : ∀ (l : List Nat) (s : St), (l.foldl markDQ s).id = s.id := by
+    intro l
+    induction l with
+    | nil => intro s; rfl
+    | cons j rest ih => intro s; rw [List.foldl_cons, ih]; unfold markDQ; split <;> rfl
+  rw [h1, h2, markInactive_id]
+
+/-- **Agreement and `honest_never_marked` after phase 2 — a theorem about `run`, no premises.**
+    For every configuration (any n, t, corrupt set, behaviour script, delivery orders), any two
+    states of honest members in `after cfg 2` (the prefix of `run` after phase 2) have the same IA
+    set and the same DQ set, and an honest member is never marked by another honest member. -/
+theorem agreement_after_phase_2 (cfg : Cfg) :
+    ∀ a ∈ after cfg 2, ∀ b ∈ after cfg 2, a.id ∉ corrupt cfg → b.id ∉ corrupt cfg →
+      (∀ k, k ∈ a.ia ↔ k ∈ b.ia) ∧ (∀ k, k ∈ a.dq ↔ k ∈ b.dq) ∧
+      (a.id ≠ b.id → b.id ∉ a.ia ∧ b.id ∉ a.dq) := by
+  intro a ha b hb hca hcb
+  rw [after2_eq] at ha hb
+  obtain ⟨i, hi, rfl⟩ := List.mem_map.1 ha
+  obtain ⟨j, hj, rfl⟩ := List.mem_map.1 hb
+  have hidi : (phase2 (S1 cfg i)).id = i := (phase2_id _).trans (S1_fields cfg i).1
+  have hidj : (phase2 (S1 cfg j)).id = j := (phase2_id _).trans (S1_fields cfg j).1
+  rw [hidi] at hca; rw [hidj] at hcb
+  by_cases hij : i = j
+  · subst hij
+    exact ⟨fun _ => Iff.rfl, fun _ => Iff.rfl, fun h => absurd rfl h⟩
+  · obtain ⟨_, h1, h2, h3, h4, _, _⟩ := views_agree_after_phase_2 cfg i j hi hj hij hca hcb
+    refine ⟨h1, h2, fun _ => ?_⟩
+    rw [hidj]; exact ⟨h3, h4⟩
+
 end KeepVerif.C01
